@@ -27,7 +27,11 @@ RULE = ('(a) cyclepoints from find_extrema / find_zerox on generated signals, bo
         'length 7 (quick) / 8 (thorough) additionally EVERY midpoint placement: one midpoint per flank anywhere in its flank (coinciding with '
         'either extremum included), no / every possible midpoint before the first and after the last extremum, with both kinds, only the '
         'rises or only the decays supplied (duplicates removed); (d) on the longer arrays of (b) two random midpoint placements of that '
-        'kind per extrema placement (sampled, not enumerated). Cases outside the quantified class (extrema closer than two samples or not '
+        'kind per extrema placement (sampled, not enumerated). In every stream about 45 % of the cases pass another kind of `sig` array than '
+        'float64 zeros / the generated recording (the function documents `sig` as the time series and uses only its length): float32, '
+        'float16, int16, int64, bool, a read-only array, a non-contiguous view, non-zero content, NaN edge samples; a fifth of the cases '
+        'pass the cyclepoints as int32 or read-only index arrays (what pandas `to_numpy()` returns). The statement oracle and the model '
+        'input (length + cyclepoints) are the same for every storage type. Cases outside the quantified class (extrema closer than two samples or not '
         'alternating, a midpoint outside its flank, two midpoints of a kind on one flank) are counted as skip. non-trivial = >= 3 extrema')
 EXHAUSTIVE = {'quick': True, 'thorough': True}   # streams (b) and (c); (a) and (d) are sampled
 ASSUMPTIONS = ['consecutive extrema at least two samples apart; peaks and troughs alternate; a supplied midpoint that does not coincide '
@@ -71,6 +75,64 @@ def _mid_lists(ext, first_peak, mids, lead, trail):
     return rises, decays
 
 
+# how the `sig` argument is stored (the property quantifies over cyclepoint sets; `sig` is "the time series" they were found on and
+# only its length can matter): dtype, content, flags.  None = float64 (zeros for placements, the recording for generated signals)
+SIG_STORE = ['float32', 'float32', 'float16', 'int16', 'int64', 'int32', 'bool', 'readonly', 'strided', 'ones', 'ramp', 'nan_edges',
+             'float32_readonly', 'uint8']
+CP_STORE = [None] * 8 + ['int32', 'readonly']
+
+
+def _store(rng, c):
+    """draw the storage variants of one case: 45 % a non-default `sig`, independently 20 % int32 / read-only index arrays"""
+    if rng.random() < 0.45:
+        c['sigv'] = rng.choice(SIG_STORE)
+    cp = rng.choice(CP_STORE)
+    if cp:
+        c['cpv'] = cp
+    return c
+
+
+def _sig_arg(n, sig, v):
+    """the array handed over as `sig`: n samples, stored as the variant says"""
+    base = np.zeros(n) if sig is None else np.array(sig, dtype=float)
+    if v is None:
+        return base
+    if sig is None and v in ('ones', 'ramp'):
+        base = np.ones(n) if v == 'ones' else np.linspace(-3.0, 3.0, n)
+    scaled = base if sig is None else base / (np.max(np.abs(base)) + 1e-300)
+    if v in ('float32', 'float16'):
+        return base.astype(v) if sig is None else scaled.astype(v)
+    if v in ('int16', 'int64', 'int32'):
+        return np.round(scaled * 1000).astype(v)
+    if v == 'uint8':
+        return np.round(scaled * 100 + 128).astype(np.uint8)
+    if v == 'bool':
+        return base > 0
+    if v == 'readonly' or v == 'float32_readonly':
+        x = base.astype(np.float32) if v == 'float32_readonly' else base.copy()
+        x.setflags(write=False)
+        return x
+    if v == 'strided':
+        x = np.zeros(2 * n)
+        x[::2] = base
+        return x[::2]
+    if v == 'nan_edges':
+        x = base.copy()
+        x[:1] = np.nan
+        x[-1:] = np.nan
+        return x
+    return base            # ones / ramp
+
+
+def _idx(xs, v):
+    if xs is None:
+        return None
+    a = np.array(xs, dtype=np.int32 if v == 'int32' else int)
+    if v == 'readonly':
+        a.setflags(write=False)
+    return a
+
+
 def _case(n, peaks, troughs, rises, decays, mode, tag):
     return {'kind': 'exhaustive/%s/%s' % (tag, mode), 'n': n, 'peaks': peaks, 'troughs': troughs,
             'rises': None if mode == 'decays_only' else rises, 'decays': None if mode == 'rises_only' else decays}
@@ -83,7 +145,7 @@ def cases(rng, tier):
         for ext in _placements(n):
             for first_peak in (True, False):
                 peaks, troughs = _kinds(ext, first_peak)
-                out.append({'kind': 'exhaustive/nomid', 'n': n, 'peaks': peaks, 'troughs': troughs, 'rises': None, 'decays': None})
+                out.append(_store(rng, {'kind': 'exhaustive/nomid', 'n': n, 'peaks': peaks, 'troughs': troughs, 'rises': None, 'decays': None}))
                 if n <= E:
                     # every midpoint placement; 'rises_only' / 'decays_only' projections are deduplicated
                     seen = set()
@@ -98,7 +160,7 @@ def cases(rng, tier):
                                     key = (None if c['rises'] is None else tuple(c['rises']), None if c['decays'] is None else tuple(c['decays']))
                                     if key not in seen:
                                         seen.add(key)
-                                        out.append(c)
+                                        out.append(_store(rng, c))
                     continue
                 for _ in range(2):
                     mids = [rng.randint(a, b) for a, b in zip(ext, ext[1:])]
@@ -106,13 +168,13 @@ def cases(rng, tier):
                     trail = rng.randint(ext[-1] + 1, n - 1) if ext[-1] < n - 1 and rng.random() < 0.5 else None
                     rises, decays = _mid_lists(ext, first_peak, mids, lead, trail)
                     mode = rng.choice(['both', 'both', 'rises_only', 'decays_only'])
-                    out.append(_case(n, peaks, troughs, rises, decays, mode, 'mid'))
+                    out.append(_store(rng, _case(n, peaks, troughs, rises, decays, mode, 'mid')))
     nsig = 70 if tier == 'quick' else 700
     for _ in range(nsig):
         s = gen.signal(rng, max_len=260)
-        out.append({'kind': 'signal/' + s['kind'], 'sig': gen.hexlist(s['sig']), 'fs': s['fs'], 'f_range': list(s['f_range']),
-                    'boundary': rng.choice([0, 0, 1, 5]), 'first': rng.choice(['peak', 'trough', None]),
-                    'mid': rng.choice(['both', 'both', 'none', 'rises_only', 'decays_only'])})
+        out.append(_store(rng, {'kind': 'signal/' + s['kind'], 'sig': gen.hexlist(s['sig']), 'fs': s['fs'], 'f_range': list(s['f_range']),
+                                'boundary': rng.choice([0, 0, 1, 5]), 'first': rng.choice(['peak', 'trough', None]),
+                                'mid': rng.choice(['both', 'both', 'none', 'rises_only', 'decays_only'])}))
     return out
 
 
@@ -175,12 +237,11 @@ def run_impl(c):
     if why:
         return {'skip': why}
     out = {'n': n, 'peaks': p, 'troughs': t, 'rises': r, 'decays': d}
-    x = np.zeros(n) if sig is None else sig
+    x = _sig_arg(n, sig, c.get('sigv'))
+    cpv = c.get('cpv')
     try:
-        pha = extrema_interpolated_phase(x, np.array(p, dtype=int), np.array(t, dtype=int),
-                                         None if r is None else np.array(r, dtype=int),
-                                         None if d is None else np.array(d, dtype=int))
-        out['pha'] = [None if math.isnan(v) else float(v) for v in pha]
+        pha = extrema_interpolated_phase(x, _idx(p, cpv), _idx(t, cpv), _idx(r, cpv), _idx(d, cpv))
+        out['pha'] = [None if math.isnan(v) else float(v) for v in np.asarray(pha, dtype=float)]
     except Exception as e:
         out['err'] = exc_kind(e)
         out['msg'] = str(e)[:120]
@@ -243,8 +304,20 @@ def nontrivial(c, o):
     return 'pha' in o and len(o['peaks']) + len(o['troughs']) >= 3
 
 
+_STORAGE = {}
+
+
 def kind_of(c, o):
+    if 'pha' in o or 'err' in o:
+        k = 'sig:%s' % (c.get('sigv') or 'float64')
+        _STORAGE[k] = _STORAGE.get(k, 0) + 1
+        k = 'cyclepoints:%s' % (c.get('cpv') or 'int64')
+        _STORAGE[k] = _STORAGE.get(k, 0) + 1
     return c['kind'] + ('/skip: ' + o['skip'] if 'skip' in o else '/err' if 'err' in o else '')
+
+
+def extra_evidence():
+    return {'argument_storage_of_judged_cases': dict(sorted(_STORAGE.items()))}
 
 
 def _nl(xs):
